@@ -16,6 +16,8 @@ import VaxisModel.Spec.Surface
     (`fill` = common style of the cells with empty grapheme, `x` if mixed, `-` if none; `cells` = the
     others as `i=g.w.st` joined by `,`, `-` if none) or `panic:explicit` / `panic:runtime`.
 
+`drawzs mw,mh c|n gap acts` — a list.Dynamic drawn again after calls of its exported API (scrolled state): no model,
+only the layout-contract oracle on the real surfaces (`scrolledVerdict`).
 `drawz …` — as `draw` for trees with a list.Dynamic: token `D c|n gap k <k widgets>` (DrawCursor on/off, Gap,
     the k items Draw drew, in order, each scanned for `Max.Width − gutter` × unbounded).  impl / model: sizes and
     origins only, `depth:col:row:z:w:h:len` per surface in pre-order.
@@ -252,6 +254,33 @@ def drawVerdict (c : Ctx) (w : Widget) (impl : String) : String :=
     | e :: _ => e
     | [] => "ok"
 
+/-- Oracle for a `list.Dynamic` drawn in any scroll state (op `drawzs`), from the documentation only: Draw
+does not panic for a bounded constraint; the list's surface is within `Max`; every item is within the
+constraint the list hands it (`Max.Width − gutter` wide, any height); the surface the cursored item is
+wrapped in (a child of the list that has a child itself) is at most `Max.Width` wide; every buffer holds
+exactly width × height cells. -/
+def scrolledVerdict (mw mh : Nat) (cursor : Bool) (impl : String) : String :=
+  if impl.startsWith "panic" then "FAIL panic: Dynamic.Draw panicked in a scrolled state with a bounded constraint"
+  else
+  match (impl.splitOn ";").mapM parseNode? with
+  | none => "FAIL unreadable impl result"
+  | some nodes =>
+    let cw := (mw + 65536 - (if cursor then 2 else 0)) % 65536
+    let errs := (List.range nodes.length).filterMap fun i =>
+      match nodes[i]? with
+      | none => none
+      | some n =>
+        let isWrapper : Bool := n.depth == 1 && (match nodes[i + 1]? with | some m => m.depth == 2 | none => false)
+        let maxW := if n.depth == 0 || isWrapper then mw else cw
+        let maxH := if n.depth = 0 then mh else 65535
+        if n.depth > 2 then some s!"FAIL shape: surface at depth {n.depth} under a list of leaf items"
+        else if n.w > maxW ∨ n.h > maxH then some s!"FAIL size: scrolled list, depth {n.depth} surface {n.w}x{n.h} exceeds max {maxW}x{maxH}"
+        else if n.len ≠ n.w * n.h then some s!"FAIL buflen: scrolled list, depth {n.depth} surface {n.w}x{n.h} has {n.len} cells"
+        else none
+    match errs with
+    | e :: _ => e
+    | [] => "ok"
+
 /-! ### render -/
 
 /-- One buffer token: `g.w.st` or a run `g.w.st*N`. -/
@@ -358,6 +387,11 @@ def step (line : String) : String :=
   | ["render", dims, nodes] => renderStep .root dims nodes impl
   | ["run", dims, nodes] => renderStep .run dims nodes impl
   | ["bare", dims, nodes] => renderStep .bare dims nodes impl
+  | "drawzs" :: ctx :: cur :: _ =>
+    -- list.Dynamic in a scrolled state (round 3): no model; the layout-contract oracle on the real surfaces
+    match (ctx.splitOn ",").map (·.toNat?) with
+    | [some mw, some mh] => s!"-\t-\t{scrolledVerdict mw mh (cur = "c") impl}"
+    | _ => "bad-op\tbad-op\tbad-op"
   | kind :: ctx :: toks =>
     if kind = "draw" ∨ kind = "drawz" then
     match (ctx.splitOn ",").map (·.toNat?), parseWidget? toks with
